@@ -169,6 +169,128 @@ pub fn dump_of(buf: &InputBuffer) -> Dump {
     }
 }
 
+/// the character-level accessors of the built buffer (InputTextIndex and friends): can_bow / cat_at_char are inputs of
+/// the model (they depend on char.def), the rest is compared
+pub struct CharDump {
+    pub bow: Vec<bool>,
+    pub cats: Vec<u32>,
+    pub pairs: Vec<(usize, usize, Option<String>, Option<String>, Option<u32>)>,
+    pub dists: Vec<(usize, usize, Option<usize>)>,
+    pub wcl: Vec<Option<usize>>,
+}
+
+pub fn char_dump_of(buf: &InputBuffer) -> CharDump {
+    let cur = buf.current().to_string();
+    let nch = cur.chars().count();
+    let mut pairs = vec![];
+    for a in 0..=nch + 1 {
+        for b in [a.saturating_sub(1), a, a + 1, a + 2, nch, nch + 1] {
+            if pairs.iter().any(|p: &(usize, usize, Option<String>, Option<String>, Option<u32>)| p.0 == a && p.1 == b) {
+                continue;
+            }
+            pairs.push((
+                a,
+                b,
+                catch(|| buf.curr_slice_c(a..b).to_string()).ok(),
+                catch(|| buf.orig_slice_c(a..b).to_string()).ok(),
+                catch(|| buf.cat_of_range(a..b).bits()).ok(),
+            ));
+        }
+    }
+    let mut dists = vec![];
+    for cpt in 0..=nch + 1 {
+        for off in [0, 1, 2, nch, nch + 3] {
+            dists.push((cpt, off, catch(|| buf.char_distance(cpt, off)).ok()));
+        }
+    }
+    CharDump {
+        bow: (0..cur.len()).map(|i| buf.can_bow(i)).collect(),
+        cats: (0..nch).map(|c| buf.cat_at_char(c).bits()).collect(),
+        pairs,
+        dists,
+        wcl: (0..=nch + 1).map(|c| catch(|| buf.get_word_candidate_length(c)).ok()).collect(),
+    }
+}
+
+pub fn char_term(orig: &str, d: &Dump, c: &CharDump) -> String {
+    let ob = |s: &Option<String>| copt(s.as_ref().map(|x| cbytes(x.as_bytes())));
+    format!(
+        "check_c08_chars {} {} {} {} {} {} {} {}",
+        cbytes(orig.as_bytes()),
+        cbytes(d.cur.as_bytes()),
+        clist(d.m2o.iter().map(|x| cnu(*x))),
+        clist(c.bow.iter().map(|b| cbool(*b).to_string())),
+        clist(c.cats.iter().map(|x| cn(*x))),
+        clist(c.pairs.iter().map(|(a, b, cs, os, cr)| format!("({}, {}, {}, {}, {})", cnu(*a), cnu(*b), ob(cs), ob(os), copt(cr.map(cn))))),
+        clist(c.dists.iter().map(|(a, b, d)| format!("({}, {}, {})", cnu(*a), cnu(*b), copt(d.map(cnu))))),
+        clist(c.wcl.iter().map(|x| copt(x.map(cnu))))
+    )
+}
+
+/// independent statement of what the character-level accessors must return
+pub fn char_oracle(orig: &str, d: &Dump, c: &CharDump) -> Option<String> {
+    let cur = &d.cur;
+    let nch = cur.chars().count();
+    let coff: Vec<usize> = cur.char_indices().map(|(i, _)| i).chain(std::iter::once(cur.len())).collect();
+    // ch_idx: every byte carries the index of its character; ch_idx(to_curr_byte_idx(i)) = i on a non-empty text
+    if !cur.is_empty() {
+        for (i, off) in coff.iter().enumerate() {
+            if d.c2b.get(i) != Some(off) {
+                return Some(format!("to_curr_byte_idx({}) = {:?}, character {} starts at byte {}", i, d.c2b.get(i), i, off));
+            }
+            if d.b2c.get(*off) != Some(&i) {
+                return Some(format!("ch_idx({}) = {:?}, but byte {} is the start of character {}", off, d.b2c.get(*off), off, i));
+            }
+        }
+        for (p, k) in d.b2c.iter().enumerate().take(cur.len()) {
+            let want = coff.iter().filter(|o| **o <= p).count() - 1;
+            if *k != want {
+                return Some(format!("ch_idx({}) = {}, but byte {} belongs to character {}", p, k, p, want));
+            }
+        }
+    }
+    for (a, b, cs, os, cr) in &c.pairs {
+        let inside = a <= b && *b <= nch;
+        let want_c = if inside { Some(cur[coff[*a]..coff[*b]].to_string()) } else { None };
+        let want_o = if inside { Some(orig[d.obyte[*a]..d.obyte[*b]].to_string()) } else { None };
+        if inside && (*cs != want_c || *os != want_o) {
+            return Some(format!("curr_slice_c / orig_slice_c of characters {}..{}: {:?} / {:?}, expected {:?} / {:?}", a, b, cs, os, want_c, want_o));
+        }
+        if a < b && *b <= nch {
+            let want = c.cats[*a..*b].iter().fold(sudachi::dic::category_type::CategoryType::all().bits(), |x, y| x & y);
+            if *cr != Some(want) {
+                return Some(format!("cat_of_range({}..{}) = {:?}, the intersection of the characters' classes is {:#x}", a, b, cr, want));
+            }
+        }
+        if a >= b && *cr != Some(0) {
+            return Some(format!("cat_of_range of the empty range {}..{} = {:?}", a, b, cr));
+        }
+    }
+    for (cpt, off, dd) in &c.dists {
+        if *cpt <= nch {
+            let want = usize::min(cpt + off, nch) - cpt;
+            if *dd != Some(want) {
+                return Some(format!("char_distance({}, {}) = {:?}, expected {}", cpt, off, dd, want));
+            }
+        }
+    }
+    for (ci, w) in c.wcl.iter().enumerate() {
+        if ci < nch {
+            let mut want = nch - ci;
+            for i in ci + 1..nch {
+                if c.bow[coff[i]] {
+                    want = i - ci;
+                    break;
+                }
+            }
+            if *w != Some(want) {
+                return Some(format!("get_word_candidate_length({}) = {:?}, expected {}", ci, w, want));
+            }
+        }
+    }
+    None
+}
+
 pub fn dump_term(d: &Dump) -> String {
     format!(
         "(mkDump {} {} {} {} {} {})",
@@ -297,6 +419,7 @@ pub fn test_grammar() -> Grammar<'static> {
 struct Outcome {
     statuses: Vec<u8>,
     dump: Option<Dump>,
+    chars: Option<CharDump>,
     in_scope: bool,
     shadow: Shadow,
 }
@@ -327,7 +450,7 @@ fn run_impl(grammar: &Grammar, orig: &str, batches: &mut Vec<Vec<EditSpec>>, gen
         let st = apply_batch(&mut buf, &b);
         statuses.push(st);
         if st == 2 {
-            return Outcome { statuses, dump: None, in_scope: false, shadow };
+            return Outcome { statuses, dump: None, chars: None, in_scope: false, shadow };
         }
         if st == 0 && in_scope {
             shadow = shadow_apply(&shadow, &cur, &b);
@@ -341,7 +464,8 @@ fn run_impl(grammar: &Grammar, orig: &str, batches: &mut Vec<Vec<EditSpec>>, gen
         Ok(Ok(())) => catch(|| dump_of(&buf)).ok(),
         _ => None,
     };
-    Outcome { statuses, dump, in_scope, shadow }
+    let chars = if dump.is_some() { catch(|| char_dump_of(&buf)).ok() } else { None };
+    Outcome { statuses, dump, chars, in_scope, shadow }
 }
 
 fn emit(sink: &mut Sink, orig: &str, batches: &[Vec<EditSpec>], out: &Outcome, verbose: bool) {
@@ -408,6 +532,30 @@ fn emit(sink: &mut Sink, orig: &str, batches: &[Vec<EditSpec>], out: &Outcome, v
                 }
                 if let Some(w) = o {
                     sink.fail(id, &w, "");
+                }
+            }
+        }
+    }
+    // character-level accessors of the same built buffer: a case of its own (every second buffer, to bound the volume)
+    if let (Some(d), true) = (&out.dump, out.in_scope) {
+        if id % 2 == 0 || verbose {
+            match &out.chars {
+                None => {
+                    let cid = sink.case_rust_only(desc(orig, batches), false);
+                    sink.fail(cid, "a character-level accessor (can_bow / cat_at_char) panicked inside the text", "");
+                }
+                Some(c) => {
+                    let cid = sink.case(char_term(orig, d, c), desc(orig, batches), d.cur.chars().count() > 1);
+                    sink.tag("char_level_accessors");
+                    let o = char_oracle(orig, d, c);
+                    if verbose {
+                        println!("can_bow   : {:?}", c.bow);
+                        println!("wcl       : {:?}", c.wcl);
+                        println!("char-level oracle: {:?}", o);
+                    }
+                    if let Some(w) = o {
+                        sink.fail(cid, &w, "");
+                    }
                 }
             }
         }
